@@ -218,6 +218,70 @@ def classify_flip(im, fi, pos, altered):
     return None, None, None, None
 
 
+def read_corruption(ctx):
+    """a byte altered underneath an OPEN store: reading the affected entry (evicted from the
+    cache, stored in a closed chunk) must fail, never return other content, never panic"""
+    rnd = ctx.rnd
+    n = ctx.scale(40, 300)
+    prefixes = []
+    for _ in range(n):
+        recs = rnd.choice([2, 3, 4])
+        cfg = "0 0 %d %d 1 %d" % (recs, rnd.choice([150, 400, 1 << 30]), rnd.choice(gen.CFG_RBUF))
+        ops, st, sim = gen.gen_history(rnd, rnd.randint(6, 20), p_reject=0.0, max_batch=1, reads=False, noop_purge=False)
+        ops = [o for o in ops if o[0] in "VATPCUF"]
+        prefixes.append("SEQ %s | %s" % (cfg, " ; ".join(gen.sync_ops(ops) + ["F 1", "I", "E"])))
+    first = C.run_impl([p + " ; G ; K" for p in prefixes], ctx.wd, "rc1")
+    cases, meta = [], []
+    for pre, a in zip(prefixes, first):
+        f = p_seq.fields(a)
+        if not f[-1].startswith("disk "):
+            continue
+        disk = parse_disk(f[-1])
+        for fid, data in disk[:-1]:               # closed chunks only
+            try:
+                rs = pydec.decode_all(data)
+            except Exception:
+                continue
+            apps = [(r, o, l) for (r, o, l) in rs if r[0] == "A"]
+            for (r, o, l) in apps[:3]:
+                for pos in sorted(set([o + 4 + rnd.randrange(16), o + 20 + rnd.randrange(4), o + l - 1 - rnd.randrange(8)] +
+                                      ([o + 24 + rnd.randrange(len(r[2]))] if len(r[2]) else []))):
+                    v = data[pos] ^ (1 << rnd.randrange(8))
+                    cases.append(pre + " ; M %d %d %d ; R 0 100000 ; D" % (fid, pos, v))
+                    meta.append(dict(id=r[1], file=fid, pos=pos, val=v, field=("id" if pos < o + 20 else "len" if pos < o + 24 else "payload" if pos < o + l - 8 else "checksum")))
+                    ctx.count("open_store_flip_" + meta[-1]["field"])
+    if not cases:
+        return
+    impl = C.run_impl(cases, ctx.wd, "rc2")
+    model = C.run_model(cases, ctx.wd, "rc2")
+    core.compare(ctx, "read-after-corruption-under-open-store", cases, impl, model)
+    bad = 0
+    for c, m, a in zip(cases, meta, impl):
+        f = p_seq.fields(a)
+        why = None
+        if "panic" in f:
+            why = "a read panicked"
+        else:
+            # what was written for that id (the last append of it in the history)
+            want = None
+            for o in c.split("|", 1)[1].split(";"):
+                t = o.split()
+                if t and t[0] == "A" and (int(t[1]), int(t[2])) == tuple(m["id"]):
+                    want = t[3]
+            for fld in (f[-2], f[-1]):
+                items = fld.split()[1:]
+                live = [x for x in items if x.startswith("ok:%d:%d:" % tuple(m["id"]))]
+                # served from the cache it is what was written; read from the altered file it must be an error
+                if live and want is not None and live[0].split(":", 3)[3] != want:
+                    why = "the entry %s whose record was altered on disk (%s byte) was returned with other content: %s" % (m["id"], m["field"], live[0][:80])
+        if why:
+            bad += 1
+            if bad <= 3:
+                ctx.fail("oracle", "C09 oracle: " + why, dict(kind="seq", case=c[:6000], mutation=m, observed=" ; ".join(f[-2:])[:600]))
+    ctx.k_checks["oracle-read-reports-corruption"] = (bad == 0, len(cases))
+    ctx.cov["read_corruption_cases"] = len(cases)
+
+
 def run_C09(ctx):
     proof = core.proof_stage("C09")
     core.builds()
@@ -263,6 +327,7 @@ def run_C09(ctx):
     impl = C.run_impl(cases, ctx.wd, "flips")
     model = C.run_model(cases, ctx.wd, "flips")
     core.compare(ctx, "recover-single-byte-sweep", cases, impl, model)
+    read_corruption(ctx)
     bad = 0
     for c, m, a in zip(cases, meta, impl):
         f = p_seq.fields(a)
